@@ -3,7 +3,7 @@ import time
 import traceback
 
 from . import extract, solve
-from .explore import Explorer, PathEnd, Undecided
+from .explore import Explorer, PathEnd, Undecided, NeedFork
 from .interp import Interp, PyRaise, Contract, LoopSpec, Closure, GenResult
 from .sym import OutOfSubset, SymbolicTruth
 
@@ -25,18 +25,55 @@ def call(it, f, *args, **kwargs):
     try:
         return Outcome(value=it.call(f, args, kwargs))
     except PyRaise as e:
+        it.ex.last_exc = f"{e.cls.__name__}: {e.exc!r}"[:300]
         return Outcome(exc=e)
 
 
 class Task:
     """One exploration: `fn(ex)` builds symbolic inputs, runs the extracted code
-    and states obligations.  `functions`: (relpath, qualname) under contract."""
+    and states obligations.  `functions`: (relpath, qualname) under contract.
 
-    def __init__(self, name, fn, functions=(), bounded=None, max_paths=None, proves=True, timeout_s=None):
+    bounded:  None for an unbounded proof task; a dict like {"unroll": 3, "note": "..."}
+              for a bounded stand-in (never counted as proved).
+    fallback: bounds to retry with when the unbounded run leaves the subset
+              (e.g. an edit introduced a loop without invariant): only
+              refutations of the fallback run matter, the task stays undecided.
+    """
+
+    def __init__(self, name, fn, functions=(), bounded=None, max_paths=None, fallback=None):
         self.name, self.fn, self.functions = name, fn, list(functions)
-        self.bounded = bounded  # None = unbounded proof; else a description string of the bound
+        self.bounded = bounded
         self.max_paths = max_paths
-        self.timeout_s = timeout_s
+        self.fallback = fallback
+
+
+def _explore(task, mode):
+    ex = Explorer(task.name, max_paths=task.max_paths)
+    ex.mode = mode
+    status, error = "ok", None
+    try:
+        ex.run(task.fn)
+    except Undecided as e:
+        status, error = "undecided", str(e)
+    except OutOfSubset as e:
+        status, error = "out-of-subset", f"{e}\n{traceback.format_exc(limit=6)}"
+    except NeedFork as e:
+        status, error = "crash", f"engine: stray NeedFork {e}\n{traceback.format_exc(limit=8)}"
+    except SymbolicTruth as e:
+        status, error = "crash", f"engine: {e}\n{traceback.format_exc(limit=8)}"
+    except RecursionError as e:
+        status, error = "out-of-subset", f"recursion limit: {e}"
+    except Exception as e:  # engine crash: exit 3, never a violation
+        status, error = "crash", f"{type(e).__name__}: {e}\n{traceback.format_exc(limit=12)}"
+    return ex, status, error
+
+
+def _bound_text(b):
+    if not b:
+        return None
+    if isinstance(b, str):
+        return b
+    return ", ".join(f"{k}<={v}" if k != "note" else str(v) for k, v in b.items())
 
 
 def run_task(task):
@@ -45,24 +82,15 @@ def run_task(task):
     extract.USED.clear()
     for k in solve.STATS:
         solve.STATS[k] = 0 if isinstance(solve.STATS[k], int) else 0.0
-    ex = Explorer(task.name, max_paths=task.max_paths)
-    res = {"task": task.name, "bounded": task.bounded, "status": "ok", "error": None}
-    interps = []
-
-    def fn(ex_):
-        return task.fn(ex_)
-
-    try:
-        ex.run(fn)
-    except Undecided as e:
-        res["status"], res["error"] = "undecided", str(e)
-    except OutOfSubset as e:
-        res["status"], res["error"] = "out-of-subset", f"{e}\n{traceback.format_exc(limit=6)}"
-    except SymbolicTruth as e:
-        res["status"], res["error"] = "crash", f"engine: {e}\n{traceback.format_exc(limit=8)}"
-    except Exception as e:  # engine crash: exit 3, never a violation
-        res["status"], res["error"] = "crash", f"{type(e).__name__}: {e}\n{traceback.format_exc(limit=12)}"
+    ex, status, error = _explore(task, task.bounded)
+    res = {"task": task.name, "bounded": _bound_text(task.bounded), "status": status, "error": error}
+    fallback_res = None
+    if status == "out-of-subset" and task.fallback and not task.bounded:
+        ex2, st2, err2 = _explore(task, task.fallback)
+        fallback_res = {"bounded": "fallback after out-of-subset: " + _bound_text(task.fallback), "status": st2, "error": err2,
+                        "obligations": [o.to_json() for o in ex2.obligations.values()], "paths": ex2.paths}
     res["obligations"] = [o.to_json() for o in ex.obligations.values()]
+    res["fallback"] = fallback_res
     res["samples"] = {o.name: o.sample for o in list(ex.obligations.values())[:2] if o.sample}
     res["paths"] = ex.paths
     res["covers"] = ex.covers
